@@ -34,13 +34,14 @@ STUB = ["file system under FileAdapter (simfs with crash semantics)", "process c
 ASSUMPTIONS = ["a stepping request is acknowledged only after its save; a write fault models a crash during request k, whose response the client never saw",
                "a begin-session is followed immediately (in its instance's stream) by a stepping request; while a begun session has not been stepped yet it is not externalised and the instance is exempt at that crash point",
                "crash modelled in-process; the thorough tier replays a sample with each incarnation in a child process on a real directory"]
-FAULT_KINDS = ["crash_between_requests", "second_crash", "crash_before_open", "torn:zero", "torn:one", "torn:header", "torn:inner", "torn:last",
+FAULT_KINDS = ["preemption", "crash_between_requests", "second_crash", "crash_before_open", "torn:zero", "torn:one", "torn:header", "torn:inner", "torn:last",
                "lost_write", "stray_file"]
-PROBES = ["stream_abandoned_by_client", "integer_run_specs", "whole_server_save_state", "second_session_in_instance", "restored_with_settings_history", "restored_instance_stepped", "torn_inside_inner_string", "damaged_file_contained",
+PROBES = ["more_than_ten_steps_with_changing_settings", "saves_of_two_instances_interleaved", "stream_abandoned_by_client", "integer_run_specs", "whole_server_save_state", "second_session_in_instance", "restored_with_settings_history", "restored_instance_stepped", "torn_inside_inner_string", "damaged_file_contained",
           "startup_with_stray_file", "several_instances_restored", "never_externalised_instance_exempt", "long_history_restored"]
 THOROUGH_PROBES = ["child_process_cross_check"]
 EXHAUSTIVE = {"quick": False, "thorough": False}
 
+PAIR_TRACE = ("server/bptkServer.py", "BPTK_Py/bptk.py", "externalstateadapter/externalStateAdapter.py")
 STRAYS = ["README", "x.json.tmp", ".DS_Store", "notes.json"]
 SAVING = ("step", "steps", "stream", "stream_cut")
 
@@ -52,6 +53,7 @@ def gen_history(seed, long=False):
     eqs = {"T1": ["stock", "flow", "constant"], "T2": ["stockA", "stockB", "move", "gain"]}[template]
     k = rng.choice([1, 1, 2, 3])
     with_settings = rng.random() < 0.6
+    many = rng.random() < 0.2       # sessions of more than ten steps whose settings change on the way ("10.0" sorts before "2.0")
     streams = []
     for j in range(k):
         scen = rng.choice(["base", "alt"])
@@ -73,7 +75,8 @@ def gen_history(seed, long=False):
             if r < 0.55:
                 s.append({"inst": j, "op": "step", "settings": sett()})
             elif r < 0.75:
-                s.append({"inst": j, "op": "steps", "n": rng.choice([1, 2, 3]) if not long else rng.choice([150, 250, 400]), "settings": sett() or {}})
+                s.append({"inst": j, "op": "steps", "n": (rng.choice([1, 2, 3]) if not many else rng.choice([4, 5, 7])) if not long else rng.choice([150, 250, 400]),
+                          "settings": sett() or {}})
             elif r < 0.87:
                 s.append({"inst": j, "op": rng.choice(["results", "flat"])})
             else:
@@ -118,6 +121,14 @@ def gen_history(seed, long=False):
         ops.append(streams[j][idx[j]])
         idx[j] += 1
     ops = ops[:16]
+    if k >= 2 and rng.random() < 0.4 and not long:
+        # two stepping requests of two different instances arrive together: their saves interleave at source-line
+        # granularity (both are acknowledged before anything crashes)
+        cand = [n for n in range(len(ops) - 1) if ops[n]["op"] in ("step", "steps") and ops[n + 1]["op"] in ("step", "steps")
+                and ops[n]["inst"] != ops[n + 1]["inst"]]
+        for n in cand[:2] if rng.random() < 0.5 else cand[-1:]:
+            if not ops[n - 1].get("pair") if n else True:
+                ops[n] = dict(ops[n], pair={"kind": "random", "seed": rng.randrange(2**32), "p": rng.choice([0.02, 0.05, 0.2])})
     if rng.random() < 0.35:
         # GET /save-state: every instance is externalised as it is, also a session that has not been stepped yet.
         # Placed where every instance created so far has a session (the route cannot save a session-less instance).
@@ -167,7 +178,7 @@ def long_case(i):
 def plan(tier, verif_seed):
     for i in range(len(LONG_CASES)):
         yield {"directed_long": i}
-    nh = 100 if tier == "quick" else 10**9
+    nh = 80 if tier == "quick" else 10**9
     for h in range(nh):
         hseed = derive_seed(verif_seed, PROPERTY, "history", h)
         long = tier == "thorough" and h % 25 == 24
@@ -242,14 +253,61 @@ def _run(case, crash, log, res):
     ops = case["ops"]
     out = {}
     info = {"boot_error": None, "externalised": set(), "damaged": set(), "file_before": {}}
+    honour = case.get("honour_pairs", True) and any(o.get("pair") for o in ops)
     with ServerWorld({"model": cfg["model"], "adapter": cfg["adapter"], "list_order": cfg.get("list_order", "insertion"),
-                      "threads": "serial"}, log, res) as w:
+                      "threads": "auto" if honour else "serial"}, log, res) as w:
         w.boot()
         ids = {}
         k = crash["k"] if crash else None
+        k2_ = crash.get("k2") if crash else None
+        skip = set()
+
+        def pair_ok(n):
+            o = ops[n - 1]
+            if not (honour and o.get("pair") and n + 1 <= len(ops)):
+                return False
+            if crash and (k == n or (crash.get("fault") and k == n + 1)):
+                return False        # the process cannot be lost "between" two requests that are in flight together
+            if k2_ is not None and k2_ == n:
+                return False
+            return True
+
+        def run_pair(n):
+            from sim.threads import Scheduler, make_policy, run_tasks
+            box = {}
+
+            def c1():
+                box[n] = _do(w, ids, ops[n - 1], res)
+
+            def c2():
+                box[n + 1] = _do(w, ids, ops[n], res)
+            sched = Scheduler(make_policy(ops[n - 1]["pair"]), PAIR_TRACE, log=None)
+            with sched:
+                rr = run_tasks(sched, [c1, c2])
+            for x in rr:
+                if x and x[0] == "exc":
+                    raise x[1]
+            res.points += sched.points
+            if sched.switches > 2:
+                res.fault("preemption", sched.switches)
+                res.probe("saves_of_two_instances_interleaved")
+            log.add("pair", n, sched.interleaving_hash())
+            for m in (n, n + 1):
+                r = box[m]
+                out[m] = (r.status, r.body if r.body is not None else r.text)
+                log.add("req", m, ops[m - 1]["op"], r.status)
+            skip.add(n + 1)
+
         for n, o in enumerate(ops, start=1):
             if crash and n > k:
                 break
+            if n in skip:
+                if crash and n == k:
+                    break
+                continue
+            if pair_ok(n):
+                run_pair(n)
+                continue
             if crash and n == k and crash.get("fault"):
                 j = o["inst"]
                 path = "/state/%s.json" % ids.get(j)
@@ -327,6 +385,14 @@ def _run(case, crash, log, res):
                     return out, info
             for n, o in enumerate(ops, start=1):
                 if n <= k:
+                    continue
+                if n in skip:
+                    if k2 is not None and n == k2:
+                        if not second_crash():
+                            return out, info
+                    continue
+                if pair_ok(n):
+                    run_pair(n)
                     continue
                 r = _do(w, ids, o, res)
                 out[n] = (r.status, r.body if r.body is not None else r.text)
@@ -449,6 +515,7 @@ def execute(case):
     tres = RunResult()
     twin_ops = [o for n, o in enumerate(ops, start=1) if n != dropped]
     twin_case["ops"] = twin_ops
+    twin_case["honour_pairs"] = False        # the uninterrupted reference takes the requests one after the other
     twin_out, _ = _run(twin_case, None, tlog, tres)
     # map twin indexes back to original indexes
     tmap = {}
@@ -562,6 +629,10 @@ def execute(case):
         res.probe("second_session_in_instance")
     if any(o["op"] == "steps" and o.get("n", 0) >= 100 for o in ops[:k]):
         res.probe("long_history_restored")
+    for j in insts:
+        pre = [o for o in ops[:k] if o["inst"] == j and o["op"] in SAVING]
+        if restored and sum(o.get("n", 1) if o["op"] == "steps" else 1 for o in pre) > 10 and len({repr(o.get("settings")) for o in pre}) > 1:
+            res.probe("more_than_ten_steps_with_changing_settings")
     res.sim_units = sum((o.get("n", 1) if o["op"] == "steps" else 1) for o in ops if o["op"] in SAVING)
     res.nontrivial = compared > 0 and restored > 0 or bool(fault) or bool(crash.get("stray"))
     res.digest = log.digest()
